@@ -354,6 +354,11 @@ class Step(Contract):
             return [PW("positions_unchanged", lambda k: vn.qty(k) == vo.qty(k)),
                     Cl("track_record_unchanged", tr1["_n"].v == tr0["_n"].v),
                     Cl("nothing_executed", z3.BoolVal(not any(t == ("call", "Broker.rebalance") for t in I.trace)))]
+        def latched():
+            # C09: even when the step escapes through the reward (D6), a decision refused as insolvent has already ended the episode
+            if any(t == ("raise", "Broker.rebalance", "EndOfEpisodeError") for t in I.trace):
+                return [Cl("insolvent_decision_latches_done", tobool(I.heap[c.self.oid]["_done"]))]
+            return []
         due = self.due(c)
         try:
             inside = space_contains(I, f["action_space"], due)
@@ -361,7 +366,8 @@ class Step(Contract):
             inside = FALSE
         return {
             # C09: once an episode has ended every further step is refused; nothing else lets EndOfEpisodeError escape
-            "EndOfEpisodeError": {"when": old_done, "post": LazyList(unchanged), "known_origins": {"D6": [".calculate"]}},
+            "EndOfEpisodeError": {"when": old_done, "post": LazyList(unchanged), "known_origins": {"D6": [".calculate"]},
+                                  "post_known": LazyList(latched)},
             "ValueError": [
                 # C17: an action outside the space is rejected no later than the step at which it is due: no trade, no record
                 {"when": z3.And(z3.Not(old_done), z3.Not(inside)), "post": LazyList(unchanged), "modifies": self.modifies(c)},
@@ -369,7 +375,7 @@ class Step(Contract):
                 {"when": z3.And(z3.Not(old_done), inside), "modifies": self.modifies(c), "post": [], "catch_all": True},
             ],
             # D6 (first step): the reward reads track_record[-1] before any record exists
-            "IndexError": {"when": FALSE, "known_origins": {"D6": [".calculate", "TrackRecord.__getitem__"]}},
+            "IndexError": {"when": FALSE, "known_origins": {"D6": [".calculate", "TrackRecord.__getitem__"]}, "post_known": LazyList(latched)},
         }
 
     def modifies(self, c):
